@@ -107,7 +107,7 @@ _public_ int m_mod_set_batch_timeout(m_mod_t *mod, uint64_t timeout_ns) {
     /* If it was already set, remove old timer */
     if (mod->batch.timer.ns != 0) {
         /* Refused (eg: -EAGAIN, no tokens left)? Then change nothing: the old timer is still there */
-        const int ret = m_mod_src_deregister_tmr(mod, &mod->batch.timer);
+        const int ret = deregister_internal_tmr(mod, &mod->batch.timer, &mod->batch);
         if (ret != 0) {
             return ret;
         }
